@@ -64,6 +64,8 @@ type CallResult struct {
 	Panic   string `json:"panic,omitempty"`
 	Hung    bool   `json:"hung,omitempty"`
 	Returns int    `json:"returns,omitempty"`
+	Info    string `json:"info,omitempty"` // AdditionalInfo of a structured error
+	Desc    string `json:"desc,omitempty"` // Description of a structured error
 }
 
 type SessionFile struct {
@@ -124,6 +126,11 @@ type Stall struct {
 type RPCSpec struct {
 	Fresh bool   `json:"fresh,omitempty"` // run a key exchange first (Scenario.HS) instead of resuming Scenario.Resume
 	Steps []Step `json:"steps"`
+	// DCs: extra reference servers (sharing the key store) registered in the client's data-centre list under these ids
+	DCs []int `json:"dcs,omitempty"`
+	// Decoy: the client is configured with the address of a second listener that must stay silent; the stored session
+	// names the real server (C12: a stored session decides where the client connects)
+	Decoy bool `json:"decoy,omitempty"`
 }
 
 // Step ops:
@@ -188,4 +195,6 @@ type HoldSpec struct {
 	Tag   int    `json:"tag"`             // request whose goroutine is held
 	Until int    `json:"until,omitempty"` // released when the server has received the request with this tag (or patience)
 	Ms    int    `json:"ms,omitempty"`    // patience of the hold
+	// Manual: released by a later "release" step (or the patience), not by the arrival of another request
+	Manual bool `json:"manual,omitempty"`
 }
